@@ -107,6 +107,9 @@ def gen_case(seed, tier):
         prog.append(op)
     cfg = {'kind': 'seq', 'maxlen': maxlen, 'mfs': mfs, 'origin': rng.choice(('direct', 'direct', 'fanout', 'django')),
            'tiny_limit': rng.random() < 0.3}
+    # the parent a Deque is obtained from may have been built with its own eviction settings: they are the parent's, a Deque never evicts
+    cfg['parent_opts'] = rng.choice(({}, {}, {'eviction_policy': 'least-recently-used', 'size_limit': 2 ** 16, 'cull_limit': 10},
+                                     {'eviction_policy': 'least-frequently-used', 'cull_limit': 2, 'statistics': 1, 'tag_index': 1}))
     return {'seed': seed, 'cfg': cfg, 'prog': prog}
 
 
@@ -209,13 +212,13 @@ def run_seq(case):
         path = world.path('d')
         parent = None
         if cfg['origin'] == 'fanout':
-            parent = dc.FanoutCache(world.path('f'), shards=2)
+            parent = dc.FanoutCache(world.path('f'), shards=2, **cfg.get('parent_opts', {}))
             dq = parent.deque('dq', maxlen=maxlen)
             probes['from_fanout'] = 1
         elif cfg['origin'] == 'django':
             from .. import seams
             mod = seams.install_django()
-            parent = mod.DjangoCache(world.path('dj'), {'SHARDS': 2})
+            parent = mod.DjangoCache(world.path('dj'), {'SHARDS': 2, 'OPTIONS': dict(cfg.get('parent_opts', {}))})
             dq = parent.deque('dq', maxlen=maxlen)
             probes['from_django'] = 1
         else:
